@@ -143,7 +143,7 @@ func (d *Dumper) ValueLit(in any, optFns ...ValueLitOptFn) string {
 		optFns[i](o)
 	}
 
-	if rv.Kind() == reflect.Ptr && rv.IsNil() {
+	if !rv.IsValid() || (rv.Kind() == reflect.Ptr && rv.IsNil()) {
 		return "nil"
 	}
 
